@@ -28,7 +28,8 @@ def specs_for(t, rnd):
     out = []
     n = 500 if t == "quick" else 25000
     lattice = [v for v in range(0, 256, 8)] + [255]
-    alphas = [0, 1, 5, 10, 250, 500, 750, 990, 999, 1000]
+    # (thousandths) the end points, the round values, and the last few thousandths before each end point
+    alphas = [0, 1, 5, 10, 250, 500, 750, 990, 999, 1000, 991, 992, 993, 994, 995, 997, 2, 3, 4, 6, 8, 9]
     hist = []   # some texts are reused over different backgrounds (history / caching must not matter)
     for k in range(n):
         an = rnd.choice(alphas) if rnd.random() < 0.6 else rnd.randrange(1001)
@@ -37,8 +38,12 @@ def specs_for(t, rnd):
             fg = tuple(rnd.choice(lattice) for _ in range(3))
         kind = k % 3
         bgv = tuple(rnd.randrange(256) for _ in range(3))
-        if rnd.random() < 0.15:
+        if rnd.random() < 0.15 or (an in (991, 992, 993, 994, 6, 8, 9) and rnd.random() < 0.6):
             bgv = rnd.choice([(0, 0, 0), (255, 255, 255), (128, 128, 128)])
+            if an in (991, 992, 993, 994, 6, 8, 9):
+                # a hair from opaque / from transparent: a skipped blend shows only when text and background are far apart
+                bgv = rnd.choice([(0, 0, 0), (255, 255, 255), (255, 0, 255), (0, 255, 0)])
+                fg = tuple(255 - v for v in bgv)
         elif rnd.random() < 0.15 or k % 15 == 2:
             # two equal channels, the third different (blue, navy, yellow, ...): "is this grey?" tests that look at two channels only
             x_, y_ = rnd.randrange(256), rnd.randrange(256)
